@@ -1,4 +1,508 @@
 //! Kani proof harnesses compiled as a child module of vrp-core/src/models/solution/tour.rs (cfg(kani) only).
+//!
+//! C14 (Tour part): inductive step. A tour is built by a concrete template (closed/open x k jobs), then ONE
+//! operation with symbolic choice of position / job is applied and the well-formedness invariant is re-checked.
+//! Any operation sequence is a chain of such steps. `Tour.jobs` is the list-backed set under cfg(kani).
+use super::*;
+use crate::models::common::Dimensions;
+use crate::verif_support::*;
+use std::sync::Arc;
+
+fn any_place() -> (usize, f64) {
+    let loc: u8 = kani::any();
+    (loc as usize, any_u8f())
+}
+
+fn new_job_activity() -> (Activity, Job) {
+    let single = single_with(Dimensions::default());
+    // keep one extra reference alive: dropping a removed activity must not run the payload's drop glue
+    std::mem::forget(single.clone());
+    let (loc, dur) = any_place();
+    (job_activity(single.clone(), loc, dur, 0., 1000.), Job::Single(single))
+}
+
+fn template<const K: usize>(closed: bool) -> (Tour, Vec<Job>) {
+    let actor = actor_with(vehicle_with(Dimensions::default(), costs(0., 0., 0.)), 0, 0., if closed { Some(0) } else { None }, 1000.);
+    let mut tour = Tour::new(&actor);
+    std::mem::forget(actor);
+    let mut jobs = Vec::new();
+    let mut idx = 0;
+    while idx < K {
+        let (activity, job) = new_job_activity();
+        tour.insert_last(activity);
+        jobs.push(job);
+        idx += 1;
+    }
+    (tour, jobs)
+}
+
+/// The representation invariant of a tour whose job activities are exactly `expected` (in visiting order).
+fn check_wf(tour: &Tour, closed: bool, expected: &[Job]) {
+    let k = expected.len();
+    let total = k + if closed { 2 } else { 1 };
+    assert!(tour.total() == total);
+    assert!(tour.job_activity_count() == k);
+    assert!(tour.job_count() == k);
+    assert!(tour.has_jobs() == (k > 0));
+    // depot ends in place
+    assert!(tour.start().is_some_and(|a| a.job.is_none()));
+    assert!(tour.get(0).is_some_and(|a| a.job.is_none()));
+    if closed {
+        assert!(tour.end().is_some_and(|a| a.job.is_none()));
+        assert!(tour.end_idx() == Some(total - 1));
+    } else {
+        assert!(tour.end().is_some_and(|a| a.job.is_some() == (k > 0)));
+    }
+    // activities <-> job set, positions
+    let mut idx = 0;
+    while idx < k {
+        let activity = tour.get(idx + 1).unwrap();
+        assert!(activity.has_same_job(&expected[idx]));
+        assert!(tour.contains(&expected[idx]) && tour.has_job(&expected[idx]));
+        assert!(tour.index(&expected[idx]) == Some(idx + 1));
+        assert!(tour.index_last(&expected[idx]) == Some(idx + 1));
+        assert!(tour.job_activities(&expected[idx]).count() == 1);
+        idx += 1;
+    }
+    assert!(tour.jobs().count() == k);
+    // leg enumeration: consecutive pairs with indices 0.., plus the single-activity leg of an open tour with jobs
+    let mut legs = 0;
+    for (items, leg_idx) in tour.legs() {
+        assert!(leg_idx == legs);
+        if total == 1 {
+            assert!(items.len() == 1);
+        } else if leg_idx + 1 < total {
+            assert!(items.len() == 2);
+        } else {
+            assert!(!closed && items.len() == 1);
+        }
+        legs += 1;
+    }
+    let expected_legs = if total == 1 { 1 } else if closed { total - 1 } else { total };
+    assert!(legs == expected_legs);
+}
+
+fn insert_step<const K: usize>(closed: bool) {
+    let (mut tour, jobs) = template::<K>(closed);
+    let (activity, job) = new_job_activity();
+    let pos: usize = kani::any();
+    kani::assume(pos >= 1 && pos <= K + 1);
+    // positions are case-split concretely (a symbolic `Vec::insert` index is a symbolic memmove length)
+    let mut expected = Vec::new();
+    let mut p = 1;
+    while p <= K + 1 {
+        if pos == p {
+            tour.insert_at(activity, p);
+            let mut i = 0;
+            while i < K + 1 {
+                if i + 1 == p {
+                    expected.push(job.clone());
+                } else {
+                    expected.push(jobs[if i + 1 < p { i } else { i - 1 }].clone());
+                }
+                i += 1;
+            }
+            break;
+        }
+        p += 1;
+    }
+    check_wf(&tour, closed, &expected);
+    kani::cover!(pos == K + 1, "appended");
+    kani::cover!(pos == 1, "first");
+    std::mem::forget((tour, jobs, expected, job));
+}
+
+fn insert_last_step<const K: usize>(closed: bool) {
+    let (mut tour, mut jobs) = template::<K>(closed);
+    let (activity, job) = new_job_activity();
+    tour.insert_last(activity);
+    jobs.push(job);
+    check_wf(&tour, closed, &jobs);
+    kani::cover!(true, "reached");
+    std::mem::forget((tour, jobs));
+}
+
+fn remove_step<const K: usize>(closed: bool) {
+    let (mut tour, jobs) = template::<K>(closed);
+    let (_absent_activity, absent) = new_job_activity();
+    let which: usize = kani::any();
+    kani::assume(which <= K);
+    let mut expected = Vec::new();
+    if which == K {
+        // a job that is not in the tour: nothing changes, `false` is reported
+        assert!(!tour.remove(&absent));
+        let mut i = 0;
+        while i < K {
+            expected.push(jobs[i].clone());
+            i += 1;
+        }
+    } else {
+        let mut w = 0;
+        while w < K {
+            if which == w {
+                assert!(tour.remove(&jobs[w]));
+                assert!(!tour.contains(&jobs[w]));
+                let mut i = 0;
+                while i < K {
+                    if i != w {
+                        expected.push(jobs[i].clone());
+                    }
+                    i += 1;
+                }
+            }
+            w += 1;
+        }
+    }
+    check_wf(&tour, closed, &expected);
+    kani::cover!(which == K, "absent");
+    kani::cover!(K == 0 || which == 0, "first-removed");
+    std::mem::forget((tour, jobs, expected, absent, _absent_activity));
+}
+
+fn remove_at_step<const K: usize>(closed: bool) {
+    let (mut tour, jobs) = template::<K>(closed);
+    let which: usize = kani::any();
+    kani::assume(which < K);
+    let mut expected = Vec::new();
+    let mut w = 0;
+    while w < K {
+        if which == w {
+            let removed = tour.remove_activity_at(w + 1);
+            assert!(removed == jobs[w]);
+            let mut i = 0;
+            while i < K {
+                if i != w {
+                    expected.push(jobs[i].clone());
+                }
+                i += 1;
+            }
+        }
+        w += 1;
+    }
+    check_wf(&tour, closed, &expected);
+    kani::cover!(which + 1 == K, "last-removed");
+    std::mem::forget((tour, jobs, expected));
+}
+
+fn deep_copy_step<const K: usize>(closed: bool) {
+    let (tour, jobs) = template::<K>(closed);
+    let mut copy = tour.deep_copy();
+    check_wf(&copy, closed, &jobs);
+    // mutate the copy: the original keeps its activities and schedules
+    let (activity, _job) = new_job_activity();
+    copy.insert_last(activity);
+    if let Some(first) = copy.get_mut(0) {
+        first.schedule.departure = 777.;
+    }
+    check_wf(&tour, closed, &jobs);
+    assert!(tour.get(0).is_some_and(|a| a.schedule.departure == 0.));
+    kani::cover!(true, "reached");
+    std::mem::forget((tour, copy, jobs, _job));
+}
+
+// @verif props=C14 tier=quick mem=medium ob=tour_step fn=Tour::insert_at,Tour::legs,Tour::index,Tour::job_activity_count,Tour::new bounds="closed tour template with 0 single-job activities, one insert with symbolic position/job choice (case-split concretely)" stubs="Arc::drop_slow := no-op"
+#[kani::proof]
+#[kani::unwind(8)]
+#[kani::stub(std::sync::Arc::drop_slow, crate::verif_support::arc_drop_noop)]
+fn c14_insert_k0_closed() {
+    insert_step::<0>(true);
+}
+
+// @verif props=C14 tier=quick mem=medium ob=tour_step fn=Tour::insert_at,Tour::legs,Tour::index,Tour::job_activity_count,Tour::new bounds="open tour template with 0 single-job activities, one insert with symbolic position/job choice (case-split concretely)" stubs="Arc::drop_slow := no-op"
+#[kani::proof]
+#[kani::unwind(8)]
+#[kani::stub(std::sync::Arc::drop_slow, crate::verif_support::arc_drop_noop)]
+fn c14_insert_k0_open() {
+    insert_step::<0>(false);
+}
+
+// @verif props=C14 tier=quick mem=medium ob=tour_step fn=Tour::insert_at,Tour::legs,Tour::index,Tour::job_activity_count,Tour::new bounds="closed tour template with 1 single-job activities, one insert with symbolic position/job choice (case-split concretely)" stubs="Arc::drop_slow := no-op"
+#[kani::proof]
+#[kani::unwind(8)]
+#[kani::stub(std::sync::Arc::drop_slow, crate::verif_support::arc_drop_noop)]
+fn c14_insert_k1_closed() {
+    insert_step::<1>(true);
+}
+
+// @verif props=C14 tier=quick mem=medium ob=tour_step fn=Tour::insert_at,Tour::legs,Tour::index,Tour::job_activity_count,Tour::new bounds="open tour template with 1 single-job activities, one insert with symbolic position/job choice (case-split concretely)" stubs="Arc::drop_slow := no-op"
+#[kani::proof]
+#[kani::unwind(8)]
+#[kani::stub(std::sync::Arc::drop_slow, crate::verif_support::arc_drop_noop)]
+fn c14_insert_k1_open() {
+    insert_step::<1>(false);
+}
+
+// @verif props=C14 tier=thorough mem=medium ob=tour_step fn=Tour::insert_at,Tour::legs,Tour::index,Tour::job_activity_count,Tour::new bounds="closed tour template with 2 single-job activities, one insert with symbolic position/job choice (case-split concretely)" stubs="Arc::drop_slow := no-op"
+#[kani::proof]
+#[kani::unwind(8)]
+#[kani::stub(std::sync::Arc::drop_slow, crate::verif_support::arc_drop_noop)]
+fn c14_insert_k2_closed() {
+    insert_step::<2>(true);
+}
+
+// @verif props=C14 tier=thorough mem=medium ob=tour_step fn=Tour::insert_at,Tour::legs,Tour::index,Tour::job_activity_count,Tour::new bounds="open tour template with 2 single-job activities, one insert with symbolic position/job choice (case-split concretely)" stubs="Arc::drop_slow := no-op"
+#[kani::proof]
+#[kani::unwind(8)]
+#[kani::stub(std::sync::Arc::drop_slow, crate::verif_support::arc_drop_noop)]
+fn c14_insert_k2_open() {
+    insert_step::<2>(false);
+}
+
+// @verif props=C14 tier=thorough mem=medium ob=tour_step fn=Tour::insert_at,Tour::legs,Tour::index,Tour::job_activity_count,Tour::new bounds="closed tour template with 3 single-job activities, one insert with symbolic position/job choice (case-split concretely)" stubs="Arc::drop_slow := no-op"
+#[kani::proof]
+#[kani::unwind(8)]
+#[kani::stub(std::sync::Arc::drop_slow, crate::verif_support::arc_drop_noop)]
+fn c14_insert_k3_closed() {
+    insert_step::<3>(true);
+}
+
+// @verif props=C14 tier=thorough mem=medium ob=tour_step fn=Tour::insert_at,Tour::legs,Tour::index,Tour::job_activity_count,Tour::new bounds="open tour template with 3 single-job activities, one insert with symbolic position/job choice (case-split concretely)" stubs="Arc::drop_slow := no-op"
+#[kani::proof]
+#[kani::unwind(8)]
+#[kani::stub(std::sync::Arc::drop_slow, crate::verif_support::arc_drop_noop)]
+fn c14_insert_k3_open() {
+    insert_step::<3>(false);
+}
+
+// @verif props=C14 tier=quick mem=medium ob=tour_step fn=Tour::insert_last,Tour::insert_at,Tour::new bounds="closed tour template with 0 single-job activities, one insert_last with symbolic position/job choice (case-split concretely)" stubs="Arc::drop_slow := no-op"
+#[kani::proof]
+#[kani::unwind(8)]
+#[kani::stub(std::sync::Arc::drop_slow, crate::verif_support::arc_drop_noop)]
+fn c14_insert_last_k0_closed() {
+    insert_last_step::<0>(true);
+}
+
+// @verif props=C14 tier=quick mem=medium ob=tour_step fn=Tour::insert_last,Tour::insert_at,Tour::new bounds="open tour template with 0 single-job activities, one insert_last with symbolic position/job choice (case-split concretely)" stubs="Arc::drop_slow := no-op"
+#[kani::proof]
+#[kani::unwind(8)]
+#[kani::stub(std::sync::Arc::drop_slow, crate::verif_support::arc_drop_noop)]
+fn c14_insert_last_k0_open() {
+    insert_last_step::<0>(false);
+}
+
+// @verif props=C14 tier=quick mem=medium ob=tour_step fn=Tour::insert_last,Tour::insert_at,Tour::new bounds="closed tour template with 1 single-job activities, one insert_last with symbolic position/job choice (case-split concretely)" stubs="Arc::drop_slow := no-op"
+#[kani::proof]
+#[kani::unwind(8)]
+#[kani::stub(std::sync::Arc::drop_slow, crate::verif_support::arc_drop_noop)]
+fn c14_insert_last_k1_closed() {
+    insert_last_step::<1>(true);
+}
+
+// @verif props=C14 tier=quick mem=medium ob=tour_step fn=Tour::insert_last,Tour::insert_at,Tour::new bounds="open tour template with 1 single-job activities, one insert_last with symbolic position/job choice (case-split concretely)" stubs="Arc::drop_slow := no-op"
+#[kani::proof]
+#[kani::unwind(8)]
+#[kani::stub(std::sync::Arc::drop_slow, crate::verif_support::arc_drop_noop)]
+fn c14_insert_last_k1_open() {
+    insert_last_step::<1>(false);
+}
+
+// @verif props=C14 tier=thorough mem=medium ob=tour_step fn=Tour::insert_last,Tour::insert_at,Tour::new bounds="closed tour template with 2 single-job activities, one insert_last with symbolic position/job choice (case-split concretely)" stubs="Arc::drop_slow := no-op"
+#[kani::proof]
+#[kani::unwind(8)]
+#[kani::stub(std::sync::Arc::drop_slow, crate::verif_support::arc_drop_noop)]
+fn c14_insert_last_k2_closed() {
+    insert_last_step::<2>(true);
+}
+
+// @verif props=C14 tier=thorough mem=medium ob=tour_step fn=Tour::insert_last,Tour::insert_at,Tour::new bounds="open tour template with 2 single-job activities, one insert_last with symbolic position/job choice (case-split concretely)" stubs="Arc::drop_slow := no-op"
+#[kani::proof]
+#[kani::unwind(8)]
+#[kani::stub(std::sync::Arc::drop_slow, crate::verif_support::arc_drop_noop)]
+fn c14_insert_last_k2_open() {
+    insert_last_step::<2>(false);
+}
+
+// @verif props=C14 tier=thorough mem=medium ob=tour_step fn=Tour::insert_last,Tour::insert_at,Tour::new bounds="closed tour template with 3 single-job activities, one insert_last with symbolic position/job choice (case-split concretely)" stubs="Arc::drop_slow := no-op"
+#[kani::proof]
+#[kani::unwind(8)]
+#[kani::stub(std::sync::Arc::drop_slow, crate::verif_support::arc_drop_noop)]
+fn c14_insert_last_k3_closed() {
+    insert_last_step::<3>(true);
+}
+
+// @verif props=C14 tier=thorough mem=medium ob=tour_step fn=Tour::insert_last,Tour::insert_at,Tour::new bounds="open tour template with 3 single-job activities, one insert_last with symbolic position/job choice (case-split concretely)" stubs="Arc::drop_slow := no-op"
+#[kani::proof]
+#[kani::unwind(8)]
+#[kani::stub(std::sync::Arc::drop_slow, crate::verif_support::arc_drop_noop)]
+fn c14_insert_last_k3_open() {
+    insert_last_step::<3>(false);
+}
+
+// @verif props=C14 tier=quick mem=medium ob=tour_step fn=Tour::remove,Tour::contains,Tour::new bounds="closed tour template with 0 single-job activities, one remove with symbolic position/job choice (case-split concretely)" stubs="Arc::drop_slow := no-op"
+#[kani::proof]
+#[kani::unwind(8)]
+#[kani::stub(std::sync::Arc::drop_slow, crate::verif_support::arc_drop_noop)]
+fn c14_remove_k0_closed() {
+    remove_step::<0>(true);
+}
+
+// @verif props=C14 tier=quick mem=medium ob=tour_step fn=Tour::remove,Tour::contains,Tour::new bounds="open tour template with 0 single-job activities, one remove with symbolic position/job choice (case-split concretely)" stubs="Arc::drop_slow := no-op"
+#[kani::proof]
+#[kani::unwind(8)]
+#[kani::stub(std::sync::Arc::drop_slow, crate::verif_support::arc_drop_noop)]
+fn c14_remove_k0_open() {
+    remove_step::<0>(false);
+}
+
+// @verif props=C14 tier=quick mem=medium ob=tour_step fn=Tour::remove,Tour::contains,Tour::new bounds="closed tour template with 1 single-job activities, one remove with symbolic position/job choice (case-split concretely)" stubs="Arc::drop_slow := no-op"
+#[kani::proof]
+#[kani::unwind(8)]
+#[kani::stub(std::sync::Arc::drop_slow, crate::verif_support::arc_drop_noop)]
+fn c14_remove_k1_closed() {
+    remove_step::<1>(true);
+}
+
+// @verif props=C14 tier=quick mem=medium ob=tour_step fn=Tour::remove,Tour::contains,Tour::new bounds="open tour template with 1 single-job activities, one remove with symbolic position/job choice (case-split concretely)" stubs="Arc::drop_slow := no-op"
+#[kani::proof]
+#[kani::unwind(8)]
+#[kani::stub(std::sync::Arc::drop_slow, crate::verif_support::arc_drop_noop)]
+fn c14_remove_k1_open() {
+    remove_step::<1>(false);
+}
+
+// @verif props=C14 tier=thorough mem=medium ob=tour_step fn=Tour::remove,Tour::contains,Tour::new bounds="closed tour template with 2 single-job activities, one remove with symbolic position/job choice (case-split concretely)" stubs="Arc::drop_slow := no-op"
+#[kani::proof]
+#[kani::unwind(8)]
+#[kani::stub(std::sync::Arc::drop_slow, crate::verif_support::arc_drop_noop)]
+fn c14_remove_k2_closed() {
+    remove_step::<2>(true);
+}
+
+// @verif props=C14 tier=thorough mem=medium ob=tour_step fn=Tour::remove,Tour::contains,Tour::new bounds="open tour template with 2 single-job activities, one remove with symbolic position/job choice (case-split concretely)" stubs="Arc::drop_slow := no-op"
+#[kani::proof]
+#[kani::unwind(8)]
+#[kani::stub(std::sync::Arc::drop_slow, crate::verif_support::arc_drop_noop)]
+fn c14_remove_k2_open() {
+    remove_step::<2>(false);
+}
+
+// @verif props=C14 tier=thorough mem=medium ob=tour_step fn=Tour::remove,Tour::contains,Tour::new bounds="closed tour template with 3 single-job activities, one remove with symbolic position/job choice (case-split concretely)" stubs="Arc::drop_slow := no-op"
+#[kani::proof]
+#[kani::unwind(8)]
+#[kani::stub(std::sync::Arc::drop_slow, crate::verif_support::arc_drop_noop)]
+fn c14_remove_k3_closed() {
+    remove_step::<3>(true);
+}
+
+// @verif props=C14 tier=thorough mem=medium ob=tour_step fn=Tour::remove,Tour::contains,Tour::new bounds="open tour template with 3 single-job activities, one remove with symbolic position/job choice (case-split concretely)" stubs="Arc::drop_slow := no-op"
+#[kani::proof]
+#[kani::unwind(8)]
+#[kani::stub(std::sync::Arc::drop_slow, crate::verif_support::arc_drop_noop)]
+fn c14_remove_k3_open() {
+    remove_step::<3>(false);
+}
+
+// @verif props=C14 tier=quick mem=medium ob=tour_step fn=Tour::remove_activity_at,Tour::remove,Tour::new bounds="closed tour template with 1 single-job activities, one remove_at with symbolic position/job choice (case-split concretely)" stubs="Arc::drop_slow := no-op"
+#[kani::proof]
+#[kani::unwind(8)]
+#[kani::stub(std::sync::Arc::drop_slow, crate::verif_support::arc_drop_noop)]
+fn c14_remove_at_k1_closed() {
+    remove_at_step::<1>(true);
+}
+
+// @verif props=C14 tier=quick mem=medium ob=tour_step fn=Tour::remove_activity_at,Tour::remove,Tour::new bounds="open tour template with 1 single-job activities, one remove_at with symbolic position/job choice (case-split concretely)" stubs="Arc::drop_slow := no-op"
+#[kani::proof]
+#[kani::unwind(8)]
+#[kani::stub(std::sync::Arc::drop_slow, crate::verif_support::arc_drop_noop)]
+fn c14_remove_at_k1_open() {
+    remove_at_step::<1>(false);
+}
+
+// @verif props=C14 tier=thorough mem=medium ob=tour_step fn=Tour::remove_activity_at,Tour::remove,Tour::new bounds="closed tour template with 2 single-job activities, one remove_at with symbolic position/job choice (case-split concretely)" stubs="Arc::drop_slow := no-op"
+#[kani::proof]
+#[kani::unwind(8)]
+#[kani::stub(std::sync::Arc::drop_slow, crate::verif_support::arc_drop_noop)]
+fn c14_remove_at_k2_closed() {
+    remove_at_step::<2>(true);
+}
+
+// @verif props=C14 tier=thorough mem=medium ob=tour_step fn=Tour::remove_activity_at,Tour::remove,Tour::new bounds="open tour template with 2 single-job activities, one remove_at with symbolic position/job choice (case-split concretely)" stubs="Arc::drop_slow := no-op"
+#[kani::proof]
+#[kani::unwind(8)]
+#[kani::stub(std::sync::Arc::drop_slow, crate::verif_support::arc_drop_noop)]
+fn c14_remove_at_k2_open() {
+    remove_at_step::<2>(false);
+}
+
+// @verif props=C14 tier=thorough mem=medium ob=tour_step fn=Tour::remove_activity_at,Tour::remove,Tour::new bounds="closed tour template with 3 single-job activities, one remove_at with symbolic position/job choice (case-split concretely)" stubs="Arc::drop_slow := no-op"
+#[kani::proof]
+#[kani::unwind(8)]
+#[kani::stub(std::sync::Arc::drop_slow, crate::verif_support::arc_drop_noop)]
+fn c14_remove_at_k3_closed() {
+    remove_at_step::<3>(true);
+}
+
+// @verif props=C14 tier=thorough mem=medium ob=tour_step fn=Tour::remove_activity_at,Tour::remove,Tour::new bounds="open tour template with 3 single-job activities, one remove_at with symbolic position/job choice (case-split concretely)" stubs="Arc::drop_slow := no-op"
+#[kani::proof]
+#[kani::unwind(8)]
+#[kani::stub(std::sync::Arc::drop_slow, crate::verif_support::arc_drop_noop)]
+fn c14_remove_at_k3_open() {
+    remove_at_step::<3>(false);
+}
+
+// @verif props=C14 tier=quick mem=medium ob=tour_step fn=Tour::deep_copy,Activity::deep_copy,Tour::new bounds="closed tour template with 0 single-job activities, one deep_copy with symbolic position/job choice (case-split concretely)" stubs="Arc::drop_slow := no-op"
+#[kani::proof]
+#[kani::unwind(8)]
+#[kani::stub(std::sync::Arc::drop_slow, crate::verif_support::arc_drop_noop)]
+fn c14_deep_copy_k0_closed() {
+    deep_copy_step::<0>(true);
+}
+
+// @verif props=C14 tier=quick mem=medium ob=tour_step fn=Tour::deep_copy,Activity::deep_copy,Tour::new bounds="open tour template with 0 single-job activities, one deep_copy with symbolic position/job choice (case-split concretely)" stubs="Arc::drop_slow := no-op"
+#[kani::proof]
+#[kani::unwind(8)]
+#[kani::stub(std::sync::Arc::drop_slow, crate::verif_support::arc_drop_noop)]
+fn c14_deep_copy_k0_open() {
+    deep_copy_step::<0>(false);
+}
+
+// @verif props=C14 tier=quick mem=medium ob=tour_step fn=Tour::deep_copy,Activity::deep_copy,Tour::new bounds="closed tour template with 1 single-job activities, one deep_copy with symbolic position/job choice (case-split concretely)" stubs="Arc::drop_slow := no-op"
+#[kani::proof]
+#[kani::unwind(8)]
+#[kani::stub(std::sync::Arc::drop_slow, crate::verif_support::arc_drop_noop)]
+fn c14_deep_copy_k1_closed() {
+    deep_copy_step::<1>(true);
+}
+
+// @verif props=C14 tier=quick mem=medium ob=tour_step fn=Tour::deep_copy,Activity::deep_copy,Tour::new bounds="open tour template with 1 single-job activities, one deep_copy with symbolic position/job choice (case-split concretely)" stubs="Arc::drop_slow := no-op"
+#[kani::proof]
+#[kani::unwind(8)]
+#[kani::stub(std::sync::Arc::drop_slow, crate::verif_support::arc_drop_noop)]
+fn c14_deep_copy_k1_open() {
+    deep_copy_step::<1>(false);
+}
+
+// @verif props=C14 tier=thorough mem=medium ob=tour_step fn=Tour::deep_copy,Activity::deep_copy,Tour::new bounds="closed tour template with 2 single-job activities, one deep_copy with symbolic position/job choice (case-split concretely)" stubs="Arc::drop_slow := no-op"
+#[kani::proof]
+#[kani::unwind(8)]
+#[kani::stub(std::sync::Arc::drop_slow, crate::verif_support::arc_drop_noop)]
+fn c14_deep_copy_k2_closed() {
+    deep_copy_step::<2>(true);
+}
+
+// @verif props=C14 tier=thorough mem=medium ob=tour_step fn=Tour::deep_copy,Activity::deep_copy,Tour::new bounds="open tour template with 2 single-job activities, one deep_copy with symbolic position/job choice (case-split concretely)" stubs="Arc::drop_slow := no-op"
+#[kani::proof]
+#[kani::unwind(8)]
+#[kani::stub(std::sync::Arc::drop_slow, crate::verif_support::arc_drop_noop)]
+fn c14_deep_copy_k2_open() {
+    deep_copy_step::<2>(false);
+}
+
+// @verif props=C14 tier=thorough mem=medium ob=tour_step fn=Tour::deep_copy,Activity::deep_copy,Tour::new bounds="closed tour template with 3 single-job activities, one deep_copy with symbolic position/job choice (case-split concretely)" stubs="Arc::drop_slow := no-op"
+#[kani::proof]
+#[kani::unwind(8)]
+#[kani::stub(std::sync::Arc::drop_slow, crate::verif_support::arc_drop_noop)]
+fn c14_deep_copy_k3_closed() {
+    deep_copy_step::<3>(true);
+}
+
+// @verif props=C14 tier=thorough mem=medium ob=tour_step fn=Tour::deep_copy,Activity::deep_copy,Tour::new bounds="open tour template with 3 single-job activities, one deep_copy with symbolic position/job choice (case-split concretely)" stubs="Arc::drop_slow := no-op"
+#[kani::proof]
+#[kani::unwind(8)]
+#[kani::stub(std::sync::Arc::drop_slow, crate::verif_support::arc_drop_noop)]
+fn c14_deep_copy_k3_open() {
+    deep_copy_step::<3>(false);
+}
 
 // Concrete-playback replays (`cargo kani playback`) are compiled from here; the file is written by /verif/check.
 #[cfg(all(kani, test))]
